@@ -43,7 +43,7 @@ VARIABLES
     adoptret,   \* [Payloads -> "-" | "ok" | "raised"]
     sigint, shut,   \* BOOLEAN: SIGINT sent; shut: "none" | "called" | "returned"
     result,     \* [Runners -> [kind, cause]]  how accept() ended
-    xst,        \* [DOMAIN Execs -> "idle" | "called" | "started" | "finished" | "returned" | "aborted"]
+    xst,        \* [DOMAIN Execs -> "idle" | "called" | "started" | "finished" | "returned" | "aborted" | "refused"]
     h           \* history: [stepafter, overlap, xbad, adoptbad, lost] booleans only the properties read
 
 vars == <<phase, guard, pst, starts, endhow, cleanleft, adoptret, sigint, shut, result, xst, h>>
@@ -270,7 +270,7 @@ ExactlyOnceLive == \A p \in Payloads : (pst[p] = "submitted" /\ phase[1] = "runn
 
 (* ---- C10 ---- *)
 ExecNotAFailure == \A x \in DOMAIN Execs : xst[x] \in {"finished", "returned"} => TRUE
-ExecLive == \A x \in DOMAIN Execs : (xst[x] = "called") ~> (xst[x] \in {"returned", "aborted"})
+ExecLive == \A x \in DOMAIN Execs : (xst[x] = "called") ~> (xst[x] \in {"returned", "aborted", "refused"})
 
 (* ---- C12 ---- *)
 AtMostOneAccepting == Cardinality({r \in Runners : phase[r] \in {"starting", "running", "closing", "closed"}}) <= 1
